@@ -3,8 +3,9 @@ CONSTANTS Vocab <- VocabC
           MaxCrashes = 1
           AtomicSave = FALSE
           InitDisks <- InitDisksC
+          TempExclusive = FALSE
           AppendOnly = FALSE
 INIT DFInit
 NEXT DFNext
-INVARIANTS NeverLosesExceptKnown
+INVARIANTS NeverLosesExceptKnown EveryFinishedAddSticks
 CHECK_DEADLOCK FALSE
